@@ -43,6 +43,51 @@ def schedules_from(out):
     return res
 
 
+def replay(prop, path):
+    """Re-runs one forced schedule (or re-validates one free-running log) from a replay file."""
+    with open(path) as f:
+        beh = json.load(f)["behaviour"]
+    work = vlib.scratch_dir()
+    try:
+        vlib.build_harness()
+        known = vlib.load_known()
+        listed = {f["id"]: f for f in known.get("findings", []) if f.get("property") == prop}
+        if "free_log" in beh:
+            res = vlib.validate_chunk("TraceFree.tla", "TraceFree.cfg", beh["free_log"], 6, work, 2400)
+            vs = [m for m in res["msgs"] if m[0] == "VIOL"]
+            for m in vs[:1]:
+                print(f"VIOLATION property={prop} replay={path}")
+                log(f"[{prop}] free-running {m[1]} event {m[2]}: {json.dumps(m[3])[:300]}")
+            return 1 if vs else 0
+        inp = os.path.join(work, "scheds.ndjson")
+        outp = os.path.join(work, "conc-trace.ndjson")
+        with open(inp, "w") as f:
+            f.write(json.dumps({"id": 0, "sched": beh["sched"], "phys": 0,
+                                "cscripted": bool(beh.get("cscripted"))}) + "\n")
+        r = subprocess.run([vlib.HARNESS, "conc", "--in", inp, "--out", outp, "--nkeys", "2",
+                            "--scratch", os.path.join(work, "ctrees")],
+                           stdout=subprocess.PIPE, stderr=subprocess.PIPE, text=True)
+        if r.returncode != 0:
+            raise vlib.ToolError("harness conc failed")
+        msgs, _ = vlib.validate_trace(outp, work, prop, 2, par=1)
+        kinds = {"READ", "SCAN", "SCANX", "STRUCT", "META", "FILES", "HIDDENREST", "OPFAIL", "MALFORMED"}
+        viols = [m for m in msgs if m["kind"] == "VIOL" and m["what"] in kinds]
+        for m in msgs:
+            if m["kind"] == "KNOWN":
+                if m["what"] in listed:
+                    print(f"KNOWN-FINDING: property={prop} {m['what']}: {listed[m['what']]['summary']}")
+                    break
+                viols.append(dict(m, kind="VIOL", what="READ"))
+        for m in viols[:1]:
+            print(f"VIOLATION property={prop} replay={path}")
+            log(f"[{prop}] {m['what']} step {m['step']}: {json.dumps(m['detail'])[:300]}")
+        log(f"[{prop}] replay: {len(viols)} violations")
+        return 1 if viols else 0
+    finally:
+        if not os.environ.get("VERIF_KEEP"):
+            shutil.rmtree(work, ignore_errors=True)
+
+
 def run(prop, tier):
     t0 = time.time()
     sd = vlib.seed()
@@ -202,7 +247,8 @@ def run(prop, tier):
             first.setdefault(m["beh"], m)
         rc = 0
         for bi, m in list(first.items())[:5]:
-            p = vlib.save_replay(prop, {"sched": uniq[bi][:m["step"]]}, {"what": m["what"], "line": m["step"]})
+            p = vlib.save_replay(prop, {"sched": uniq[bi], "cscripted": json.dumps(uniq[bi], sort_keys=True) in scripted_keys},
+                                 {"what": m["what"], "line": m["step"]})
             print(f"VIOLATION property={prop} replay={p}")
             log(f"[{prop}] {m['what']} schedule {bi} step {m['step']}: {json.dumps(m['detail'])[:300]}")
             rc = 1
